@@ -1,14 +1,79 @@
 (* C01 — every packet value survives serialise -> deserialise unchanged.  Statements only.
-   Status: the frame-level theorem is general; the lift to every well-formed layout and every
-   canonical value (DESIGN 6, C01: roundtrip_struct) is stated in CodecRoundtrip.v as it is completed —
-   theorems named *_partial say what is still missing. *)
-From Zvt Require Import Base Length LengthProps Cp437 Encoding EncodingProps Codec CodecFrame CodecRoundtrip.
+   The full statement: for EVERY layout (any list of fields over the attribute grammar, shipped or not)
+   and EVERY value, if the pair lies in the decidable class `canon` (CanonClass.v: the class makes the
+   DESIGN 5.1/5.2 conditions executable), then serialising gives exactly the bytes `canon` computes and
+   deserialising those bytes gives back exactly the value, with nothing left — and, for commands,
+   whatever follows the APDU is handed back untouched.  Leaf families (all integers of a width, all BCD
+   numbers of a digit count, all CP437 / hex strings, ...) are shown to be inside the class for all
+   their values; every shipped layout is shown to be inside the class with all optionals present and
+   with all optionals absent (regenerated tables, re-checked each run).
+   What is still partial: UTF-8 and date-time leaves enter the class value by value (their decoders are
+   run by `canon`), not by a closed-form family lemma. *)
+From Zvt Require Import Base Length LengthProps Cp437 Encoding EncodingProps Codec CodecFrame CodecRoundtrip
+  CodecTags CodecFields CodecCanon CanonClass CanonRoundtrip CanonRun CanonShipped.
 Open Scope N_scope.
+
+(* commands (packets with a control field) *)
+Theorem C01_roundtrip_commands : forall c v b, canon_cmd c v = Some b ->
+  enc_cmd c v = Ok b /\
+  forall fuel r, (depth_fields (c_fields c) <= S fuel)%nat -> dec_cmd fuel c (b ++ r) = Ok (v, r).
+Proof. exact canon_cmd_roundtrip. Qed.
+
+(* TLV containers and other structs without a control field *)
+Theorem C01_roundtrip_containers : forall fs v g, canon_struct fs v = Some g ->
+  enc_struct fs v = Ok g /\
+  forall fuel, (depth_fields fs <= S fuel)%nat -> dec_plain fuel fs g = Ok (v, []).
+Proof. exact canon_struct_roundtrip. Qed.
+
+(* one field of any type at any nesting depth, in its context: ctx = Some r when the following bytes
+   are known, None when anything may follow *)
+Theorem C01_roundtrip_any_field : forall ls e t tag v ctx g, canon ls e t tag v ctx = Some g ->
+  enc ls e t tag v = Ok g /\
+  (forall fuel r, (depth t <= fuel)%nat -> fits ctx r -> (needs_next t = true -> nextok tag r) ->
+     tag = None \/ g <> [] -> dec fuel ls e t tag (g ++ r) = Ok (v, r)) /\
+  (forall tg, tag = Some tg ->
+     (g = [] -> v = default_value t /\ is_optional t = true) /\
+     (g <> [] -> forall r, exists rest, tag_dec false (g ++ r) = Ok (tg, rest))).
+Proof. exact canon_exact. Qed.
+
+(* the class contains whole value families *)
+Theorem C01_class_all_integers : forall (big : bool) ls w tag n ctx,
+  delimiting ls = true -> len_fits ls w = true -> tag_ok_b tag = true -> n < 256 ^ w ->
+  exists g, canon ls (if big then EBigEndian else EDefault) (TPrim (PInt w)) tag (VInt n) ctx = Some g.
+Proof. exact class_int. Qed.
+Theorem C01_class_all_integers_without_length : forall (big : bool) w tag n ctx, tag_ok_b tag = true -> n < 256 ^ w ->
+  exists g, canon LEmpty (if big then EBigEndian else EDefault) (TPrim (PInt w)) tag (VInt n) ctx = Some g.
+Proof. exact class_int_nolen. Qed.
+Theorem C01_class_all_bcd_numbers : forall k w tag n ctx,
+  tag_ok_b tag = true -> n < 100 ^ k -> n < 2 ^ (8 * w) -> n < 2 ^ 64 ->
+  exists g, canon (LFixed k) EBcd (TPrim (PInt w)) tag (VInt n) ctx = Some g.
+Proof. exact class_bcd_fixed. Qed.
+Theorem C01_class_all_cp437_text : forall ls tag s pl ctx,
+  delimiting ls = true -> len_fits ls (blen pl) = true -> tag_ok_b tag = true ->
+  cp437_enc s = Ok pl -> (forall q x, s = q ++ [x] -> x <> 0) ->
+  exists g, canon ls EDefault (TPrim PString) tag (VStr s) ctx = Some g.
+Proof. exact class_cp437. Qed.
+Theorem C01_class_all_hex_text : forall ls tag n s ctx,
+  delimiting ls = true -> len_fits ls (N.of_nat n) = true -> tag_ok_b tag = true ->
+  length s = (2 * n)%nat -> Forall lower_hex s ->
+  exists g, canon ls EHex (TPrim PString) tag (VStr s) ctx = Some g.
+Proof. exact class_hex. Qed.
+
+(* every shipped packet / container, all optionals present and all optionals absent, is in the class *)
+Theorem C01_shipped_layouts_in_class : outside true = [] /\ outside false = [].
+Proof. exact shipped_in_class. Qed.
+
+(* non-vacuity on a shipped packet: an Authorization with amount 10.00, currency 978, payment type 0x40 and
+   the additional text "Hi" is in the class; the bytes are the ones the ZVT specification gives *)
+Example C01_ex_authorization :
+  exists b, run_canon "zvt::packets::Authorization" b = Some 1 /\
+    b = [6; 1; 18; 4; 0; 0; 0; 0; 16; 0; 73; 9; 120; 25; 64; 60; 240; 240; 242; 72; 105].
+Proof. eexists. split; [|reflexivity]. vm_compute. reflexivity. Qed.
 
 (* one <tag><length><data> frame, for every delimiting length style, every representable tag, every
    inner codec: what the inner decoder reads back completely, the frame reads back completely, and
    whatever follows the frame is handed back untouched *)
-Theorem C01_frame_roundtrip_partial : forall (A : Type) ls big tag (k : bytes -> res (A * bytes)) p v r,
+Theorem C01_frame_roundtrip : forall (A : Type) ls big tag (k : bytes -> res (A * bytes)) p v r,
   delimiting ls = true -> len_fits ls (blen p) = true -> tag_ok big tag ->
   k p = Ok (v, []) ->
   exists g, framed_enc ls big tag p = Ok g /\ framed_dec ls big tag k (g ++ r) = Ok (v, r).
@@ -19,4 +84,13 @@ Example C01_ex_frame : framed_enc (LLlv 2) false (Some 35) [18; 52] = Ok [35; 24
      = Ok (VStr [49; 50; 51; 52], [9]).
 Proof. split; vm_compute; reflexivity. Qed.
 
-Print Assumptions C01_frame_roundtrip_partial.
+Print Assumptions C01_roundtrip_commands.
+Print Assumptions C01_roundtrip_containers.
+Print Assumptions C01_roundtrip_any_field.
+Print Assumptions C01_class_all_integers.
+Print Assumptions C01_class_all_integers_without_length.
+Print Assumptions C01_class_all_bcd_numbers.
+Print Assumptions C01_class_all_cp437_text.
+Print Assumptions C01_class_all_hex_text.
+Print Assumptions C01_shipped_layouts_in_class.
+Print Assumptions C01_frame_roundtrip.
